@@ -241,10 +241,13 @@ pub fn shrink(check: &GridCheck, seed: u64, start: Found, max_steps: usize) -> F
     let mut cur = start;
     let mut steps = 0;
     let pkg = format!("jvs_{}", check.id.to_lowercase());
+    // (the verdict is already in; a wall-clock cap only limits how small the replayed program gets -
+    // failing runs of the thread checks wait for deadlines)
+    let t0 = Instant::now();
     'outer: loop {
         let cands: Vec<Prog> = shrink_candidates(&cur.prog).into_iter().filter(|c| !crate::gen::is_d4(c)).collect();
         for chunk in cands.chunks(16) {
-            if steps >= max_steps {
+            if steps >= max_steps || t0.elapsed().as_secs() > 150 {
                 break 'outer;
             }
             steps += 1;
